@@ -300,7 +300,8 @@ class ActionsHarness(Harness):
             for r in orig_refs:
                 if r in new_refs:
                     new_refs.remove(r)
-            law('C09.one-reference-per-extracted-section-titled-with-heading', sorted(new_refs) == sorted((k, t) for k, t in titles),
+            from h_lib import resolve
+            law('C09.one-reference-per-extracted-section-titled-with-heading', sorted((resolve(u, src), t) for u, t in new_refs) == sorted((k, t) for k, t in titles),
                 dict(info, new_references=new_refs, extracted=titles))
             if prov == 'SectionExtract':
                 law('C09.extracted-section-is-the-target', len(titles) == 1 and titles[0][1] == ttext, dict(info, titles=titles, target=ttext))
